@@ -464,7 +464,19 @@ example : wf (complement (ambiguous 5 9)) = true ∧ reverseAbs (complement (amb
 OUTSIDE the in-bounds hypothesis: `Segment.Locate` calls `gts.Slice(seq, head, tail)`, which adds
 `len` to a negative coordinate (wraps around), rotates when `end < start` after that, and then
 slices `seq.Bytes()[start:end]` — a PANIC for a coordinate beyond `len` (or below `-len`).  The
-model's `Seq.sliceFwd` is total (`drop`/`take` truncate), so nothing is claimed there. -/
+model's `Seq.sliceFwd` is total (`drop`/`take` truncate), so nothing is claimed there.
+
+WHAT THE IN-BOUNDS HYPOTHESIS BOUNDS (audit session 4): `denIn s.len (den l)` bounds the RESIDUES `l`
+denotes.  A between-site denotes no residue, so `denIn` says nothing about where it lies: `between 100` on a
+4-residue record meets every hypothesis of the `denIn` theorems below (`denIn_ignores_sites`), the model's
+`Locate` extracts nothing from it, and the real `Slice(seq, 100, 100)` PANICS (replayed: `reg.locate
+(S 100 100) x61636774`).  The `denIn` theorems are therefore statements about the extracted RESIDUES of the
+MODEL; they transfer to the real code only where, in addition, every zero-length segment lies inside the
+record.  The hypothesis that bounds sites too is `Reg.within s.len (region l)` (both ends of every segment,
+zero-length ones included, in `[0, len]` — exactly where no `Slice` of `Locate` on the original record wraps,
+rotates or leaves the byte array): `locate_bytes_within` and the `…_within_partial` corollaries are stated
+under it.  For the RE-LOCATED location on the reverse-complemented record no such bound is proved: known
+finding K1 moves the site `between len` to `between (-1)`. -/
 
 /-- **locate_bytes** (DESIGN §3): for a well-formed location whose denoted positions are all
 indices of the record, the residues extracted by `l.Region().Locate(seq)` are exactly the
@@ -583,6 +595,29 @@ theorem revcomp_extract_partial (l : Loc) (s r : Seq) (hr : s.revcompRec = some 
   obtain ⟨d, hd, he⟩ := revcomp_extract_refines_partial l s r hr hw hk2 hb
   rw [he, hd.eq_of_nodup hnd, locate_region_bytes l s hw hb]
 
+/-- `denIn` does not bound between-sites (audit session 4): the site `between 100` on a 4-residue record
+meets EVERY hypothesis of `revcomp_extract_partial` / `revcomp_extract_refines_partial` — it denotes no
+residue — although its region `Segment{100, 100}` lies outside the record (`Reg.within` false), where the real
+`Slice` panics and the model's extracts nothing. -/
+theorem denIn_ignores_sites :
+    let l := between 100
+    let s : Seq := ⟨[], [97, 99, 103, 116]⟩
+    s.revcompRec.isSome = true ∧ wf l = true ∧ reverseAbs l s.len = false ∧ denIn s.len (den l) ∧
+    (den l).Nodup ∧ ¬ Reg.within s.len (region l) ∧ (Reg.locate (region l) s).bytes = [] := by
+  decide
+
+/-- **reverse-complement extraction under the full in-bounds guard** (`Reg.within`: every segment of
+`l.Region()`, zero-length ones — between-sites — included, lies inside the record, so that `Locate` on the
+ORIGINAL record stays clear of every panicking or wrapping `Slice`): the conclusion of
+`revcomp_extract_partial`.  Nothing is claimed about `Slice` on the reverse-complemented record for the
+re-located sites (K1). -/
+theorem revcomp_extract_within_partial (l : Loc) (s r : Seq) (hr : s.revcompRec = some r)
+    (hw : wf l = true) (hk2 : reverseAbs l s.len = false) (hb : Reg.within s.len (region l))
+    (hnd : (den l).Nodup) :
+    (Reg.locate (region (compl (reverse l s.len))) r).bytes =
+      (Reg.locate (region l) s).bytes.map uToT :=
+  revcomp_extract_partial l s r hr hw hk2 (den_region l hw ▸ Reg.denIn_of_within hb) hnd
+
 /-- the same for `Location.Complement` proper (which unwraps a `Complemented` instead of wrapping
 it twice): `gts.Complement(gts.Reverse(seq))` re-locates `l` to `(l.Reverse(len)).Complement()` -/
 theorem revcomp_extract_unwrap_partial (l : Loc) (s r : Seq) (hr : s.revcompRec = some r)
@@ -644,6 +679,25 @@ theorem seq_revcomp_extract_partial (l : Loc) (s r : Seq) (hr : s.revcompRec = s
     rw [hlen, hden]; exact denIn_map_revcompPos hb
   rw [locate_region_bytes _ r' hwT hbT, hden, hbytes, locate_region_bytes l s hwl hb]
   exact map_readAt_revcomp s.bytes (den l) hb
+
+/-- the record-level form (`gts.Reverse(gts.Complement(seq))`, location re-located by `Complement` then
+`Reverse(len)`) under the full in-bounds guard -/
+theorem seq_revcomp_extract_within_partial (l : Loc) (s r : Seq) (hr : s.revcompRec = some r)
+    (hw : wf (complement l) = true) (hk2 : reverseAbs (complement l) s.len = false)
+    (hb : Reg.within s.len (region l)) (hnd : (den l).Nodup) :
+    (Reg.locate (region (reverse (complement l) s.len)) r).bytes =
+      (Reg.locate (region l) s).bytes.map uToT :=
+  seq_revcomp_extract_partial l s r hr hw hk2
+    (den_region l (by rw [← wf_complement]; exact hw) ▸ Reg.denIn_of_within hb) hnd
+
+/-- non-vacuity: a join with a between-site INSIDE the record meets the `within` guard (and every other
+hypothesis of the two theorems above) -/
+example :
+    let l := joined [ranged 0 2 true false, between 3, ranged 4 6 false false]
+    let s : Seq := ⟨[], [65,67,71,84,65,67,71,84]⟩
+    s.revcompRec.isSome = true ∧ wf l = true ∧ reverseAbs l s.len = false ∧ Reg.within s.len (region l) ∧
+    (den l).Nodup ∧ wf (complement l) = true ∧ reverseAbs (complement l) s.len = false := by
+  decide
 
 /-- **the whole record**: `gts.Reverse(gts.Complement(seq))` never panics, keeps every feature
 (none lost or duplicated) re-located by `Complement` then `Reverse(len)`, and EVERY feature that
